@@ -479,7 +479,13 @@ class Shadow:
     def invariants(self, toks, o, ex):
         what = " ".join(toks)
         for e in o.ev:
-            if is_bad_ev(e): self.fail("memory", "%s: instrumentation reported %s" % (what, e))
+            if is_bad_ev(e):
+                code = e[3:].split(":")[0]
+                if code.isdigit() and 40 <= int(code) <= 49:
+                    self.fail("vec-semantics", "%s: two ways of reaching the same element disagree (%s: 40 erased get/at/get_unchecked, "
+                              "41 typed get/at/get_unchecked(_mut), 42 get_mut/at_mut/iter_mut, 43 borrowed iteration/len/size_hint, "
+                              "44 unchecked downcasts, 45 len/is_empty/capacity, 46 element type id/size/clone, 47 Debug, 49 element_drop)" % (what, e))
+                else: self.fail("memory", "%s: instrumentation reported %s" % (what, e))
         if o.res.startswith("harness-error"):
             self.fail("oracle-error", "%s: %s" % (what, o.res))
         # destructor runs: at most once per element
